@@ -307,7 +307,8 @@ def _rowsel_forms(sl, fa, depth=0):
             if v is None:
                 out.append((src(sl), False))
                 continue
-            exempt = any(isinstance(a, ast.If) and "'znum' in kwargs" in src(a.test) and any(d is b or d in list(ast.walk(b)) for b in a.body)
+            from ..fn import expand as _expand
+            exempt = any(isinstance(a, ast.If) and "'znum' in kwargs" in src(_expand(a.test, fa, depth=3)) and any(d is b or d in list(ast.walk(b)) for b in a.body)
                          for a in ancestors(d))
             if exempt:
                 out.append((src(v), True))
